@@ -72,6 +72,22 @@ func genNeutralStmt(r *rand.Rand, n int, emit func(args ...string)) {
 		{"SELECT a FROM m ; ; SELECT b FROM n", "SELECT a\tFROM\r\nm\n;\r;\nSELECT b /**/ FROM n"},
 		{"GRANT ALL TO x ; DROP USER y", "GRANT ALL TO x /* a */ ; DROP USER y -- b\n"},
 		{"SELECT a FROM m WHERE x = 'it''s -- not a comment'", "SELECT a FROM m WHERE x = 'it''s -- not a comment'"},
+		// the regex look-ahead points (finding comment-before-regex-lookahead, fixed)
+		{"SELECT a, b FROM m", "SELECT a, /*c*/ b FROM m"},
+		{"SELECT a, b FROM m", "SELECT a, -- c\n b FROM m"},
+		{"SELECT /f/, b FROM m", "SELECT /*c*/ /f/, -- d\n b FROM m"},
+		{"SELECT a FROM m", "SELECT a FROM /*c*/ m"},
+		{"SELECT a FROM /m/", "SELECT a FROM -- c\n /m/"},
+		{"SELECT a FROM m, /n/", "SELECT a FROM m, /*c*/ /n/"},
+		{"SELECT a FROM m GROUP BY /t/", "SELECT a FROM m GROUP BY /*c*/ /t/"},
+		{"SELECT a FROM m GROUP BY x, /t/, y", "SELECT a FROM m GROUP BY x, -- c\n /t/, /*d*/ y"},
+		{"SELECT a FROM m WHERE t =~ /x/ AND u !~ /y/", "SELECT a FROM m WHERE t =~ /*c*/ /x/ AND u !~ -- d\n /y/"},
+		{"SELECT f(a, /x/) FROM m", "SELECT f( /*c*/ a, -- d\n /x/) FROM m"},
+		{"SHOW MEASUREMENTS WITH MEASUREMENT = cpu", "SHOW MEASUREMENTS WITH MEASUREMENT = /* c */ cpu"},
+		{"SHOW MEASUREMENTS WITH MEASUREMENT =~ /cpu/", "SHOW MEASUREMENTS WITH MEASUREMENT =~ -- c\n /cpu/"},
+		{"SHOW TAG VALUES WITH KEY =~ /k/", "SHOW TAG VALUES WITH KEY =~ /* c */ /k/"},
+		{"SHOW TAG KEYS FROM /m/", "SHOW TAG KEYS FROM /*c*/ /m/"},
+		{"DELETE FROM /m/ ; DROP SERIES FROM /n/", "DELETE FROM -- c\n /m/ ; DROP SERIES FROM /*c*/ /n/"},
 	}
 	for _, f := range fixed {
 		emit(encStr(f[0]), encStr(f[1]))
